@@ -98,7 +98,9 @@ static int run_case(const struct kase *k, struct res *r, int verbose) {
     observe(s, k->coin, &o0); r->calls += 13;
     if (!obs_matches_ref(&o0, &k->r, k->coin, why, sizeof why)) FAIL("source", "loaded seed does not present the reference data: %s", why);
     polyseed_data *d = NULL;
-    int ds = polyseed_decode_explicit(b.out, k->coin, lang, &d); r->calls++;
+    /* the caller's phrase sits in a heap block of exactly its own size (a reader that assumes a full phrase buffer behind the pointer shows under ASan) */
+    char *tight = malloc(n + 1); memcpy(tight, b.out, n + 1);
+    int ds = polyseed_decode_explicit(tight, k->coin, lang, &d); r->calls++; free(tight);
     if (ds != POLYSEED_OK) FAIL("explicit-status", "decode_explicit of the encoded phrase returned %d (phrase \"%.120s\")", ds, b.out);
     observe(d, k->coin, &o1); r->calls += 13;
     if (!obs_eq(&o0, &o1)) { obs_matches_ref(&o1, &k->r, k->coin, why, sizeof why); FAIL("explicit-seed", "decoded seed differs from the encoded one: %s", why); }
